@@ -115,7 +115,18 @@ func GenSFHostile(r *rand.Rand, seq, subID uint32, maxSize int) *SFDatagram {
 				// IPv4 options: any header length, possibly captured only in part
 				rec.Raw.IHL = uint8(r.Intn(16))
 			}
+			oddL4 := false
+			if rec.Raw != nil && r.Intn(4) == 0 {
+				// protocols behind the network header that are not TCP, UDP or ICMP:
+				// extension headers, tunnels, routing protocols
+				rec.Raw.L4 = []uint8{0, 43, 44, 50, 51, 59, 60, 135, 47, 4, 41, 132, 2, 89}[r.Intn(14)]
+				oddL4 = true
+			}
 			switch {
+			case oddL4 && r.Intn(2) == 0:
+				// captured up to somewhere in the first octets behind the network header
+				l3 := len(rec.Raw.Bytes()) - 4 - len(rec.Raw.Payload)
+				rec.CutP1 = 1 + l3 + r.Intn(13)
 			case rec.Raw != nil && r.Intn(6) == 0:
 				// the sampled header claims a length of its own choosing - alone, or
 				// together with the record that carries it
